@@ -2,6 +2,29 @@
 """Rewrites the figures column of DESIGN.md section 14.3 from the evidence files
 (quick: evidence/Cxx.json, thorough: evidence/thorough/Cxx.json)."""
 import json, re, os
+ADDED = {
+ "C01": "cov-advance, cov-cellgeom, cov-siti, cov-latlng, cov-rectbound, first-use",
+ "C02": "cov-* (stages of every predicate), sign-underflow, float-sign-reversal",
+ "C03": "t-junctions, near-antipodal-edges",
+ "C04": "nested-complements (incl. polar families), cov-*, decoded-polygons",
+ "C05": "cap-grid, cap-bound-alignment, covering-histories, snapped-polygons, index-cell-corner-leaves, cov-*, corner-cut loops",
+ "C06": "index-histories, remove-last-histories, cov-* (shape contract of every constructor, leaf piles, clipping), small-loop-inside-huge-loop",
+ "C07": "cov-* (relation visitors, wedges, nesting), loop-reuse-relations, nested families",
+ "C08": "45-51 indexes, interiors, derived limits, brute/optimized differential, reuse-histories, compact-index-targets, index-target-max-error",
+ "C09": "encode/Invert/encode histories, reader-kinds",
+ "C10": "wide-regions, bound-histories, hull-nested-polygons, subregion-bound-rotation, cov-*",
+ "C11": "algebra-histories, face-3 universe, redundantly written arguments",
+ "C12": "cell-relations, cell-scalars, areas, edge-pairs, bounds-polar, long edges, ancestor-containment",
+ "C13": "deepKey, worker processes, M3 14-loop polygon, M5, full polygon in M1, M4-small-index",
+ "C14": "full-memory pass, S7, F-first-use, RWMutex writer preference, TryLock, deferred vacuity guards",
+ "C15": "decode-into-used-value, reader-kinds (worker), one-vertex-loop polygons; thorough: second-order faults",
+ "C16": "tiny-at-endpoint",
+ "C17": "cov-* (thresholds, point-on-line, polyline ops), edge-pair-thresholds",
+ "C18": "cov-* (centroids, caps, rects, cells), loop-reuse-histories, band loops",
+ "C19": "S1-expanded-near-full, COV-*, CHORD-near-supplementary",
+ "C20": "snap-declared, snap-sites-*, snap-inverse, projection-api",
+}
+
 def fmt(n):
     if n >= 1e9: return "%.2f G" % (n/1e9)
     if n >= 1e6: return "%.1f M" % (n/1e6)
@@ -25,6 +48,10 @@ for i, l in enumerate(lines):
     if t and t[0] == "thorough":
         txt += " (thorough: %s / %s / %.0f s%s)" % (fmt(t[1]), fmt(t[2]), t[3], "" if t[4] else ", caps hit: see evidence")
     cols[2] = txt
+    if pid in ADDED and "; later: " not in cols[1]:
+        cols[1] += "; later: " + ADDED[pid]
+    if pid in ("C01","C02","C03","C04","C05","C06","C07","C08","C09","C10","C11","C12","C13","C15","C16","C17","C18","C19","C20") and "concurrent-use" not in cols[1]:
+        cols[1] += "; concurrent-use panels"
     lines[i] = " | ".join(cols)
 open("/verif/DESIGN.md", "w").write("\n".join(lines))
 print("figures updated")
